@@ -126,6 +126,7 @@ class Ctx:
             fatal("building harness against /repo failed:\n" + out[-4000:])
 
     def _gentables(self):
+        os.makedirs(os.path.join(COQ, "Gen"), exist_ok=True)
         rc, out, _ = sh([os.path.join(BUILD, "gentables"), REPO, os.path.join(COQ, "Gen", "GenTables.v")])
         self.gentables_ok = rc == 0
         if rc != 0:
